@@ -44,7 +44,8 @@ PLAN = {
 _UID = itertools.count()
 OUTCOMES = ["fail", "fail", "response", "pass", "pass", "info", "fingerprint", "metadata", "metadata_key", "none", "nonresp",
             "raise", "skip", "missing_req", "missing_group", "dep_failed", "disabled", "badkey_none", "badkey_empty", "badkey_int",
-            "badkey_bytes", "reserved_type", "reserved_keyname", "size_under", "size_at", "size_over", "nokey_metadata_with_key"]
+            "badkey_bytes", "reserved_type", "reserved_keyname", "size_under", "size_at", "size_over", "nokey_metadata_with_key",
+            "nonresp_false", "nonresp_zero", "nonresp_empty_list", "nonresp_empty_dict", "nonresp_empty_str", "nonresp_true", "nonresp_str"]
 HEADING = {"rule": "reports", "pass": "pass", "info": "info", "fingerprint": "fingerprints", "none": "none"}
 SHOW_OPTS = [None, ["rule"], ["pass", "info"], ["none"], ["rule", "pass", "info", "none", "metadata", "fingerprint"], ["metadata"], ["fingerprint", "none"]]
 
@@ -141,6 +142,8 @@ def run_case(spec, ctx):
                     return None
                 if oc == "nonresp":
                     return {"type": "rule", "error_key": key}
+                if oc.startswith("nonresp_"):
+                    return {"false": False, "zero": 0, "empty_list": [], "empty_dict": {}, "empty_str": "", "true": True, "str": "text"}[oc[8:]]
                 if oc == "raise":
                     raise ValueError("rule-body-%d" % _i)
                 if oc == "skip":
@@ -318,7 +321,7 @@ def run_case(spec, ctx):
                             notexp = [dr.get_name(present)]
                             if not all(n in details for n in expnames) or any(n in details for n in notexp) or sk[0].get("reason") != "MISSING_REQUIREMENTS":
                                 ctx.violation("skip-entry-names-wrong-dependencies", dict(w, details=details[:300]), spec=case)
-                elif oc in ("nonresp", "raise", "badkey_none", "badkey_empty", "badkey_int", "badkey_bytes", "reserved_type", "reserved_keyname",
+                elif oc.startswith("nonresp_") or oc in ("nonresp", "raise", "badkey_none", "badkey_empty", "badkey_int", "badkey_bytes", "reserved_type", "reserved_keyname",
                             "nokey_metadata_with_key"):
                     if found or sk:
                         ctx.violation("rejected-rule-result-reported", dict(w, found=[h for h, e in found], skips=len(sk)), spec=case)
